@@ -484,25 +484,25 @@ class BaseParser:
                     field.attr_dependencies if as_attname else field.dependencies
                 )
 
-        if not options.ignore_required:
-            # if required field is ignored. we do not need to check for required fields
-            for key, field in self.fields.items():
-                name = field.attname if as_attname else field.name
-                if name in result:
-                    continue
-                if name in provided_fields:
-                    # the input did provide this field (its value was rejected, excluded or not taken as input):
-                    # it is not absent, as in the field-first strategy
-                    continue
-                if excluded_keys and name in excluded_keys:
-                    continue
-                unprovided_fields.add(name)
-                if field.is_required(options=options):
-                    context.handle_error(exc.AbsenceError(item=name))
-                    continue
-                default = field.get_default(options, defer=False)
-                if not unprovided(default):
-                    result[name] = default
+        # is_required() is False for every field when required fields are ignored,
+        # unprovided fields still take their default then (as in the field-first strategy)
+        for key, field in self.fields.items():
+            name = field.attname if as_attname else field.name
+            if name in result:
+                continue
+            if name in provided_fields:
+                # the input did provide this field (its value was rejected, excluded or not taken as input):
+                # it is not absent, as in the field-first strategy
+                continue
+            if excluded_keys and name in excluded_keys:
+                continue
+            unprovided_fields.add(name)
+            if field.is_required(options=options):
+                context.handle_error(exc.AbsenceError(item=name))
+                continue
+            default = field.get_default(options, defer=False)
+            if not unprovided(default):
+                result[name] = default
 
         if dependencies:
             dependant = set(result)
